@@ -66,6 +66,7 @@ type NodeSpec struct {
 	UnknownFirst      bool   `json:"unknown_first,omitempty"`       // right after the handshake the node sends a message with a command unknown to the service
 	PushOnHandshake   bool   `json:"push_on_handshake,omitempty"`   // unsolicited pushes go out right after the handshake, not after the first getheaders answer
 	NotFullNode       bool   `json:"not_full_node,omitempty"`       // the node does not advertise NODE_NETWORK (it is no candidate to sync from)
+	RestartOnDrop     bool   `json:"restart_on_drop,omitempty"`     // the scripted loss of the first connection takes every other open connection of the node with it (the node restarts)
 	IgnoreStop        bool   `json:"ignore_stop,omitempty"`         // answers do not end at the stop hash (all that remain, or the cap)
 	SilentFirst       bool   `json:"silent_first,omitempty"`        // the first connection never answers getheaders, later ones do
 	OffendOnce        bool   `json:"offend_once,omitempty"`         // forbidden: after it has delivered the forbidden header once the node follows the honest chain
@@ -487,6 +488,7 @@ func Execute(s *Scenario, dir string) (res *Result) {
 			}
 			n.DisconnectAtMsg = ns.DisconnectAtMsg
 			n.UnknownFirst, n.PushOnHandshake = ns.UnknownFirst, ns.PushOnHandshake
+			n.RestartOnDrop = ns.RestartOnDrop
 			if ns.NotFullNode {
 				n.Services = wire.SFNodeBloom
 			}
@@ -1059,6 +1061,12 @@ func (x *runner) slotLost(i int, ns NodeSpec, more time.Duration) bool {
 	cs := n.Conns()
 	dials := x.rig.DialCount()
 	if x.s.Engine != "legacy" || ns.Inbound || len(cs) == 0 || anyOpen() {
+		return false
+	}
+	if n.RefusedDials() > 0 {
+		// the node turned dials away (it accepts a limited number of connections): the service bans an address after 25 failed
+		// dials, so "it knows the node's address" cannot be taken for granted
+		x.count("slot_oracle_skipped_the_node_refused_dials", 1)
 		return false
 	}
 	if x.waitFor(func() bool { return anyOpen() || x.rig.DialCount() != dials }, more) {
